@@ -275,6 +275,7 @@ class C17(Engine):
 
     def run(self, ex, plan):
         res = RunResult()
+        ex0 = ex
         ex = self.variant(ex, plan.get("build"))
         fmt = plan["fmt"]
         tag = "%s:%s" % (fmt, plan["mode"])
@@ -303,13 +304,24 @@ class C17(Engine):
             res.nontrivial = True
             for d in descr:
                 res.fault("disk:" + d.split("@")[0].split("+")[0])
+        argv = list(plan["argv"])
+        if plan.get("build") == "small" and len(data) > 65536:
+            # the page list of the small-page build is searched linearly: a big image is slow to load, not hung
+            ex = self.variant(ex0, "san")
+            res.probe("small_build_skipped_big_image")
+        if plan.get("build") == "small" and "-address" in argv:
+            # with 256-byte pages a whole-image walk over a 2 GiB span is eight million page look-ups: slow, not hung;
+            # the small-page runs keep the image inside 16 MiB
+            i = argv.index("-address")
+            if i + 1 < len(argv) and argv[i + 1] in ("0x7fffffff", "0xfffffff0", "-1"):
+                argv[i + 1] = "0xfff000"
         files = {"/sim/w/" + plan["name"]: data}
         if plan["serial"] is not None:
             files["/sim/w/ser.in"] = plan["serial"].encode("latin-1")
         env = dict(plan["env"])
         env["event_ceiling"] = 6000000
         env["stdout_ceiling"] = 300000
-        o = ex.call(build_request(MODE_UTIL, ["naken_util"] + plan["argv"], files, plan["faults"], plan["console"],
+        o = ex.call(build_request(MODE_UTIL, ["naken_util"] + argv, files, plan["faults"], plan["console"],
                                   plan["sigs"], env=env, cpu_ms=8000, wall_ms=120000))
         res.absorb(o)
         digests.append(o.digest())
@@ -356,6 +368,10 @@ class C17(Engine):
             cmd = console[pos - 1].split(" ")[0] if 0 < pos <= len(console) else ("load" if pos == 0 else "after-quit")
             if cmd == "" and "\nasm> \n" in text[-3000:] + "\n":
                 cmd = "asm-block"
+            elif cmd == "":
+                # a blank line repeats the previous command word
+                prev = [c.split(" ")[0] for c in console[:pos - 1] if c.strip()]
+                cmd = prev[-1] if prev else ""
         else:
             cmd = plan["mode"]
         if pos == 0 and "Type help for a list of commands." not in text:
